@@ -14,7 +14,10 @@ PROPS = "theories/Props/C04.v"
 MODULE = "Props.C04"
 SUPPORT = ["theories/Proofs/FloatLemmas.v", "theories/Proofs/ConvFloat.v", "theories/Proofs/QuantityP.v"]
 CAPS = ["Copy", "Clone", "PartialEq", "Eq", "PartialOrd", "Ord", "std::hash::Hash", "Default", "Send", "Sync", "Unpin",
-        "std::panic::UnwindSafe", "std::panic::RefUnwindSafe", "std::fmt::Debug"]
+        "std::panic::UnwindSafe", "std::panic::RefUnwindSafe", "std::fmt::Debug", "uom::serde::Serialize", "uom::serde::de::DeserializeOwned"]
+# the same capabilities do not depend on the kind: also probed on quantities of non-default kinds (for two storage types)
+CAP_QUANTITIES = {"velocity": "uom::si::velocity::Velocity", "thermodynamic_temperature": "uom::si::thermodynamic_temperature::ThermodynamicTemperature",
+                  "angle": "uom::si::angle::Angle", "information": "uom::si::information::Information"}
 CAP_TYPES = ["f64", "f32", "i32", "i64", "u64", "isize", "bigint", "biguint", "rational64", "bigrational", "complex64"]
 
 
@@ -58,10 +61,10 @@ def layout_slot(ty):
         size_of::<Option<Q>>(), size_of::<Option<V>>())"""
 
 
-def cap_program(ty, cap, on_quantity):
+def cap_program(ty, cap, on_quantity, qname="velocity"):
     rt = STYPES[ty]["rust"]
-    t_ = f"uom::si::velocity::Velocity<uom::si::SI<{rt}>, {rt}>" if on_quantity else rt
-    return PG.Program("(unchanged (() Kind 0))", [], f"fn need<T: {cap}>() {{}} need::<{t_}>(); String::new()", f"{'Quantity' if on_quantity else 'storage'} {ty}: {cap}")
+    t_ = f"{CAP_QUANTITIES[qname]}<uom::si::SI<{rt}>, {rt}>" if on_quantity else rt
+    return PG.Program("(unchanged (() Kind 0))", [], f"fn need<T: {cap}>() {{}} need::<{t_}>(); String::new()", f"{qname + ' quantity' if on_quantity else 'storage'} {ty}: {cap}")
 
 
 def run(ctx):
@@ -122,6 +125,12 @@ def run(ctx):
             progs.append(cap_program(ty, cap, True))
             progs.append(cap_program(ty, cap, False))
             pmeta.append((ty, cap))
+    for qname in ("thermodynamic_temperature", "angle", "information"):
+        for ty in ("f64", "bigrational"):
+            for cap in CAPS:
+                progs.append(cap_program(ty, cap, True, qname))
+                progs.append(cap_program(ty, cap, False))
+                pmeta.append((ty + "/" + qname, cap))
     rv = PG.classify("c04caps", FEATURE_SETS["all"], progs)
     caps_checked = 0
     cap_table = {}
@@ -159,7 +168,7 @@ def run(ctx):
     cov["explanation"] = ("PARTIAL. Decided: (a) Coq theorems that every float conversion/operator is bit-for-bit the bare-number expression with the factor folded to one "
                           "constant (no residual add/sub; identity for the base unit; sensitive to the -0.0/+0.0 ConstantOp choice), checked against the compiled crate by "
                           "comparing Quantity::new/get with a separately compiled bare-number reference function on every value class for selected units; (b) capability "
-                          "equality quantity <-> storage type for 14 traits x 11 storage types by compile probes; (c) size/align/niche equality; (d) the declaration of struct "
+                          "equality quantity <-> storage type for 16 traits (serde's two included) x 11 storage types, and for quantities of three non-default kinds, by compile probes; (c) size/align/niche equality; (d) the declaration of struct "
                           "Quantity (repr attribute, field kinds) and the attributes and bodies of to_base/from_base/change_base are re-read from src/system.rs on every run and "
                           "theorems state: repr(transparent) over two PhantomData and the value (hence size/align/ABI of the storage type by Rust's layout rules), "
                           "#[inline(always)] on the three functions, bodies equal to the model's functions; (e) validation of (d) against the compiler: a catalogue of "
